@@ -381,7 +381,7 @@ class Solver(object):
             minSlack < Solver.ZERO_UPPERBOUND and not v.active or v.equality
         ):
             l[deletePoint] = l[n - 1]
-            l = l[:-1]
+            l.pop()
         return v
 
     def satisfy(self):
@@ -416,6 +416,7 @@ class Solver(object):
                     self.inactive.append(v)
                 else:
                     self.bs.merge(v)
+            v = self.mostViolated()
 
     def solve(self):
         self.satisfy()
